@@ -95,10 +95,14 @@ func (c *caseRun) matching(a addr, dump map[string]string) []string {
 func (c *caseRun) coverage(o *op, a addr) {
 	two, pre, pat := false, false, false
 	foreign := false
+	sibling := false // same task, another collection / message id that extends the addressed one (1 -> 10, m1 -> m10)
 	for k := range c.state {
 		t := c.owner[k]
 		if !a.hasKind(t.Kind) {
 			continue
+		}
+		if a.Sub != "" && t.Root == a.Root && t.Task == a.Task && t.Sub != a.Sub && strings.HasPrefix(t.Sub, a.Sub) {
+			sibling = true
 		}
 		if t.Root != a.Root {
 			foreign = true
@@ -132,6 +136,9 @@ func (c *caseRun) coverage(o *op, a addr) {
 	}
 	if pat {
 		c.run.Count(p+"pattern-chars", 1)
+	}
+	if sibling {
+		c.run.Count(p+"longer-sibling-id", 1)
 	}
 	if two || pre || pat {
 		c.nontriv = true
@@ -489,7 +496,7 @@ func (c *caseRun) judgeRead(o *op, a addr, res result, before map[string]string)
 			return 0
 		case r == relNested:
 			return 1
-		case r == "other-root-pattern-char-match" || r == "other-root-prefix-related" || r == "prefix-related-task" || r == "pattern-char-task-match":
+		case r == "other-root-pattern-char-match" || r == "other-root-prefix-related" || r == "prefix-related-task" || r == "task-id-nested-path" || r == "pattern-char-task-match":
 			return 2
 		default:
 			return 3
@@ -529,6 +536,14 @@ func (c *caseRun) judgeUpdatePos(o *op, a addr, before, after map[string]string,
 	if len(x) > 1 {
 		c.violate(c.key(verb, kPos, "more-than-one-record-changed"), fmt.Sprintf("%d addressed records changed: %v", len(x), printableAll(x)), o)
 		return
+	}
+	for _, k := range cands {
+		if b, bok := c.be.AsReturned(kPos, k, before[k]); bok {
+			if e, _ := sub(tree(b), "Positions")[o.Chan].(map[string]any); e["Dropped"] == true {
+				c.run.Count("dropped_entry_update_attempts/"+c.cs.Backend, 1)
+				break
+			}
+		}
 	}
 	anyDropped := func() bool {
 		for _, k := range cands {
@@ -626,6 +641,12 @@ func (c *caseRun) judgeUpdatePos(o *op, a addr, before, after map[string]string,
 				}
 			}
 		}
+		// (a dropped entry replaced by the fresh record counts like a lost one)
+		for _, s := range slots {
+			if em, isM := sub(bt, s.field)[s.key].(map[string]any); isM && em["Dropped"] == true && jstr(em) != jstr(sub(at, s.field)[s.key]) {
+				lost = true
+			}
+		}
 		if fresh && lost {
 			what := "own-record-not-returned"
 			if hasPat(a.Root) || hasPat(a.Task) {
@@ -681,8 +702,8 @@ func (c *caseRun) judgeUpdatePos(o *op, a addr, before, after map[string]string,
 	for _, s := range slots {
 		skip = append(skip, [2]string{s.field, s.key})
 	}
-	// was the record rebuilt from a foreign one (the update's read step returned it)? The dropped-entry clause is
-	// reported on its own in every case.
+	// was the record rebuilt from a foreign one (the update's read step returned it)? Then that is the finding; the
+	// individual symptoms (other channels changed, a dropped entry replaced) are listed in its description.
 	// (b) the record equals a foreign record with the supplied entries applied to it: the read step returned that one
 	apply := func(ft map[string]any) (string, bool) {
 		cp := tree(canon(ft))
@@ -734,7 +755,7 @@ func (c *caseRun) judgeUpdatePos(o *op, a addr, before, after map[string]string,
 		f, found = c.explainPos(k, at, before, skip)
 	}
 	for _, fd := range finds {
-		if fd.what == "dropped-entry-overwritten" || !found {
+		if !found {
 			c.violate(c.key(verb, kPos, fd.what), fd.desc, o)
 		}
 	}
@@ -784,17 +805,35 @@ func (c *caseRun) explainPos(self string, t map[string]any, before map[string]st
 	}
 	if len(rest) == 0 {
 		// nothing copied; a created record may still carry a foreign record's identity (task id, collection id)
+		// (several records may qualify; the one whose root the addressed root covers as a pattern or prefix is the
+		// plausible source)
 		if _, existed := before[self]; !existed {
+			best, bestRank := "", 99
+			me := c.owner[self]
 			for _, k2 := range sortedKeys(before) {
 				if k2 == self || c.owner[k2].Kind != kPos {
 					continue
 				}
 				if f, fok := c.be.AsReturned(kPos, k2, before[k2]); fok {
 					ft := tree(f)
-					if jstr(ft["TaskID"]) == jstr(t["TaskID"]) && jstr(ft["CollectionID"]) == jstr(t["CollectionID"]) && c.owner[k2].Root != c.owner[self].Root {
-						return k2, true
+					if jstr(ft["TaskID"]) == jstr(t["TaskID"]) && jstr(ft["CollectionID"]) == jstr(t["CollectionID"]) && c.owner[k2].Root != me.Root {
+						rank := 3
+						switch relation(c.owner[k2], addr{Root: me.Root, Kinds: []kind{kPos}}, true) {
+						case "other-root-pattern-char-match":
+							rank = 0
+						case relNested:
+							rank = 1
+						case "other-root-prefix-related":
+							rank = 2
+						}
+						if rank < bestRank {
+							best, bestRank = k2, rank
+						}
 					}
 				}
+			}
+			if best != "" {
+				return best, true
 			}
 		}
 		return "", false
